@@ -252,6 +252,136 @@ def to_xml(d: dict, layout: str, form: str, comments: bool = False) -> str:
     return ser(d, True)
 
 
+# ------------------------------------------------------------------------------------------------
+# namespace declarations on NON-root elements.  The same document (same expanded names) is written with xmlns
+# declarations placed where the plan says: `plan` maps a node position to a list of actions; every name is then
+# written with a binding that is in scope at its element (declared on demand when there is none).
+ONS = 'urn:o'                        # a namespace no name of the documents is in (target of rebindings)
+NS_ACTIONS = ['newprefix', 'newdefault', 'rebind', 'swap', 'defaultother', 'redeclare', 'unused']
+NS_RELS = ['self', 'parent', 'sibling', 'descendant', 'ancestor']
+ROOT_STYLES = ['minimal', 'prefixed', 'default', 'both']
+
+
+def node_ns(n: dict, is_root: bool, form: str) -> str:
+    if 'ns' in n:
+        return n['ns']
+    if ':' in n['n']:
+        return XNS
+    return TNS if (is_root or form == 'qualified') else ''
+
+
+def to_xml_scoped(d: dict, form: str, plan: dict, rng, comments: bool = False, root_style: str = 'minimal') -> str:
+    counter = [0]
+
+    def fresh(sc: dict, u: str) -> str:
+        conv = {TNS: 't', XNS: 'x'}.get(u)
+        if conv and conv not in sc and rng.random() < 0.5:
+            return conv
+        while True:
+            counter[0] += 1
+            p = 'p%d' % counter[0]
+            if p not in sc:
+                return p
+
+    def ser(n: dict, pos: tuple, scope: dict) -> str:
+        u = node_ns(n, not pos, form)
+        decls: dict = {}
+        sc = dict(scope)
+
+        def declare(p: str, v: str) -> None:
+            decls[p] = v
+            sc[p] = v
+        if not pos:
+            if root_style in ('prefixed', 'both'):
+                declare('t', TNS)
+            if root_style in ('default', 'both'):
+                declare('', TNS)
+            if root_style != 'minimal' or rng.random() < 0.5:
+                declare('x', XNS)
+        for act in plan.get(pos, ()):
+            if act == 'newprefix':
+                v = u or TNS
+                declare(fresh(sc, v), v)
+            elif act == 'newdefault':
+                declare('', u)                      # for an element in no namespace: xmlns=""
+            elif act == 'defaultother':
+                declare('', rng.choice([x for x in (XNS, ONS, TNS) if x != u]))
+            elif act in ('rebind', 'swap'):
+                pt = [p for p, v in sc.items() if p and v == TNS]
+                px = [p for p, v in sc.items() if p and v == XNS]
+                if act == 'swap' and pt and px:
+                    a, b = rng.choice(pt), rng.choice(px)
+                    declare(a, XNS)
+                    declare(b, TNS)
+                else:
+                    ps = [p for p in sc if p]
+                    if ps:
+                        p = rng.choice(ps)
+                        declare(p, rng.choice([x for x in (TNS, XNS, ONS) if x != sc[p]]))
+                    else:
+                        declare(fresh(sc, u or TNS), u or TNS)
+            elif act == 'redeclare':
+                ps = [p for p in sc if sc[p]]
+                if ps:
+                    p = rng.choice(ps)
+                    declare(p, sc[p])
+            elif act == 'unused':
+                declare(fresh(sc, ''), 'urn:unused')
+
+        def pick(v: str, attr: bool) -> str:
+            """a prefix bound to `v` in scope ('' = the default namespace, never for attributes)"""
+            cands = [p for p, w in sc.items() if w == v and (p or not attr)]
+            if not cands:
+                if not attr and rng.random() < 0.4:
+                    declare('', v)
+                    return ''
+                p = fresh(sc, v)
+                declare(p, v)
+                return p
+            here = [p for p in cands if p in decls]
+            return rng.choice(here) if here and rng.random() < 0.8 else rng.choice(cands)
+        loc = n['n'].split(':')[-1]
+        if u:
+            p = pick(u, False)
+            tag = f'{p}:{loc}' if p else loc
+        else:
+            if sc.get('', ''):
+                declare('', '')
+            tag = loc
+        attrs = ''
+        for k, v in n['a'].items():
+            if ':' in k:
+                p = pick(attr_ns(k), True)
+                k = p + ':' + k.split(':')[1]
+            attrs += f' {k}="{v}"'
+        xmlns = ''.join(f' xmlns:{p}="{v}"' if p else f' xmlns="{v}"' for p, v in decls.items())
+        inner = (n['t'] or '') + ''.join(('<!--c-->' if comments else '') + ser(c, pos + (i,), sc)
+                                         for i, c in enumerate(n['c']))
+        return f'<{tag}{xmlns}{attrs}>{inner}</{tag}>'
+    return ser(d, (), {})
+
+
+def make_plan(d: dict, ref: tuple, rel: str, kind: str, rng, sprinkle: float = 0.06) -> dict:
+    """an action of `kind` at the node that stands in relation `rel` to the node at `ref` (falls back to the node
+    itself when there is no such node), plus a few random actions elsewhere"""
+    site = ref
+    if rel == 'parent' and ref:
+        site = ref[:-1]
+    elif rel == 'ancestor' and len(ref) >= 2:
+        site = ref[:rng.randrange(1, len(ref))]
+    elif rel == 'sibling' and ref and len(at(d, ref[:-1])['c']) >= 2:
+        site = ref[:-1] + (rng.choice([i for i in range(len(at(d, ref[:-1])['c'])) if i != ref[-1]]),)
+    elif rel == 'descendant' and at(d, ref)['c']:
+        site = ref + (rng.randrange(len(at(d, ref)['c'])),)
+        if at(d, site)['c'] and rng.random() < 0.3:
+            site = site + (rng.randrange(len(at(d, site)['c'])),)
+    plan = {site: [kind]}
+    for pos, _n in nodes(d):
+        if rng.random() < sprinkle:
+            plan.setdefault(pos, []).append(rng.choice(NS_ACTIONS))
+    return plan
+
+
 def nodes(d: dict, pos: tuple = ()):
     yield pos, d
     for i, c in enumerate(d['c']):
@@ -342,6 +472,87 @@ def expand(name: str, ns: dict) -> Optional[str]:
     return '{%s}%s' % (ns[''], name) if ns.get('') else name
 
 
+def split_steps(path: str) -> list:
+    parts, cur, depth = [], '', 0
+    for ch in path[1:]:
+        if ch == '{':
+            depth += 1
+        elif ch == '}':
+            depth -= 1
+        if ch == '/' and depth == 0:
+            parts.append(cur)
+            cur = ''
+        else:
+            cur += ch
+    parts.append(cur)
+    return parts
+
+
+def only_f1_wrong(root, pos: tuple, path: Optional[str], ns: dict) -> bool:
+    """C19-F1 is the ONLY thing wrong with the path: step by step along the chain root -> element, the positional
+    predicate is the one XPath needs (position among the siblings with the same expanded name, written iff there are
+    several), every step name read with `ns` denotes the element's expanded name, except that the steps of elements in
+    NO namespace are bare local names although `ns` binds the empty prefix (at least one such step)."""
+    if not path or not path.startswith('/') or not ns.get(''):
+        return False
+    parts = split_steps(path)
+    if len(parts) != len(pos) + 1:
+        return False
+    e, parent, bare = root, None, 0
+    for k, part in enumerate(parts):
+        m = STEP.match(part)
+        if not m:
+            return False
+        if k:
+            parent, e = e, elem_children(e)[pos[k - 1]]
+            same = [c for c in elem_children(parent) if c.tag == e.tag]
+            want = None if len(same) == 1 else str(1 + [id(c) for c in same].index(id(e)))
+        else:
+            want = None
+        if m.group(2) != want:
+            return False
+        if e.tag[:1] != '{':
+            if m.group(1) != e.tag:
+                return False
+            bare += 1
+        elif expand(m.group(1), ns) != e.tag:
+            return False
+    return bare > 0
+
+
+def etree_find(root, path: str, ns: dict, parser: str) -> Any:
+    """the path read by ElementTree's / lxml's own findall with the error's map (the root step is checked here,
+    because ElementPath is relative to the element it is called on)"""
+    parts = split_steps(path) if path.startswith('/') else None
+    if not parts:
+        return 'unreadable'
+    m = STEP.match(parts[0])
+    name = expand(m.group(1), ns) if m else None
+    if name is None:
+        return 'unreadable'
+    if root.tag != name or m.group(2) not in (None, '1'):
+        return []
+    if len(parts) == 1:
+        return [root]
+    nsarg: dict = dict(ns)
+    if parser == 'lxml':                      # lxml spells the default namespace with the key None
+        nsarg = {(k or None): v for k, v in ns.items() if k or v}
+    elif nsarg.get('') == '':
+        del nsarg['']
+    try:
+        return root.findall('./' + '/'.join(parts[1:]), nsarg)
+    except (SyntaxError, KeyError, ValueError) as exc:
+        return 'unreadable: ' + type(exc).__name__
+
+
+def resource_find(source, path: str, ns: dict) -> Any:
+    """XMLResource.findall (elementpath) with the error's map"""
+    try:
+        return source.findall(path, namespaces=ns)
+    except Exception as exc:  # noqa
+        return 'unreadable: ' + type(exc).__name__ + ' ' + str(exc)[:80]
+
+
 def xpath_select(root, path: str, ns: dict) -> Optional[list]:
     """elements selected by an absolute path of child steps; None = the path cannot be read"""
     if not path.startswith('/'):
@@ -407,9 +618,14 @@ def rendered_tree(e, ns: dict) -> dict:
 def known_match(case: dict, detail: dict) -> Optional[str]:
     """C19-F1: a step for an element in no namespace is written as a bare local name while the error's
     namespace map binds the empty prefix, so a reader takes it into the default namespace."""
+    if detail.get('kind') == 'path' and 'only_f1' in detail:
+        # exact: every reader selects nothing, and the bare steps of no-namespace elements under a bound default are
+        # the only thing wrong with the path (`only_f1_wrong`): a path written with a stale or foreign namespace map,
+        # a wrong position, a wrong name are NOT this finding
+        return 'C19-F1' if detail['only_f1'] and detail.get('selected') == [] else None
     if detail.get('kind') == 'path' and (detail.get('namespaces') or {}).get('') and detail.get('nons_step') \
-            and not detail.get('selected'):
-        return 'C19-F1'
+            and not detail.get('selected') and 'rendered' in detail:
+        return 'C19-F1'                           # `renders`: a single name
     # C19-F2: the content model of the damaged node's parent is broken by the fault, the schema family has a wildcard
     # beside a same-named declaration, and every out-of-zone error lies at or below a *sibling* of the damaged node
     # (the siblings are re-matched by name once the model is broken, groups.py:1013-1041).
@@ -433,7 +649,8 @@ def load_local_findings() -> list:
 # ------------------------------------------------------------------------------------------------
 # Fault localisation: observation tables (hypotheses H-own, H-gov of Props/C19.lean) and the model's prediction
 CHILDREN_ERR = 'XMLSchemaChildrenValidationError'
-_NSNOISE = re.compile(r"\{urn:t\}|\bt:")
+# names are spelt with whatever prefix the namespace map in force offers: not part of what an error is
+_NSNOISE = re.compile(r"\{[^}]*\}|\b[\w.-]+:(?=[A-Za-z_])")
 
 
 def own_text(e) -> str:
@@ -581,14 +798,23 @@ def run_case(ctx: Ctx, case: dict, xml: str, form: str, parser: str, damaged: Op
         if pos is None:
             ctx.failure('error element is not a node of the document', case, {'reason': str(e.reason)})
             return
+        # the path as a user reads it: with the error's own namespaces, through the library's own find
+        # (XMLResource.findall), ElementTree's / lxml's findall and an independent evaluator
         path = e.path
         ns = dict(e.namespaces or {})
         sel = xpath_select(root, path, ns) if path else None
-        if sel is None or len(sel) != 1 or sel[0] is not e.elem:
+        readers = {'independent': sel if sel is not None else 'unreadable'}
+        if path:
+            readers['XMLResource.findall'] = resource_find(source, path, ns)
+            readers['ElementTree.findall'] = etree_find(root, path, ns, parser)
+        if any(not isinstance(r, list) or len(r) != 1 or r[0] is not e.elem for r in readers.values()):
             chain = [at_elem(root, pos[:k]) for k in range(1, len(pos) + 1)]
+            shown = {k: (r if not isinstance(r, list) else [position_of(root, x) for x in r]) for k, r in readers.items()}
             detail = {'kind': 'path', 'path': path, 'namespaces': ns,
                       'selected': None if sel is None else [position_of(root, x) for x in sel],
-                      'nons_step': any(x.tag[:1] != '{' for x in chain),
+                      'readers': shown, 'only_f1': only_f1_wrong(root, pos, path, ns) and
+                      all(r == [] for r in readers.values()),
+                      'nons_step': any(x.tag[:1] != '{' for x in chain), 'element': e.elem.tag,
                       'element_position': list(pos), 'reason': str(e.reason)[:120]}
             fid = known_match(case, detail)
             if fid:
@@ -748,25 +974,52 @@ def explore(ctx: Ctx, drv: Optional[Driver], tabs: Optional[Tables] = None) -> N
         bogus_tag = ('{%s}bogus' % TNS) if form == 'qualified' else 'bogus'
         exhaustive = len(nn) <= 40
         chosen = nn if exhaustive else rng.sample(nn, 40)
+        # the valid document again with its declarations on non-root elements: same expanded names, must stay valid
+        for _k in range(2):
+            vplan = make_plan(doc, rng.choice(nn)[0], rng.choice(NS_RELS), rng.choice(NS_ACTIONS), rng, 0.15)
+            vxml = to_xml_scoped(doc, form, vplan, rng, comments, rng.choice(ROOT_STYLES))
+            for parser in ('etree', 'lxml'):
+                case = dict(base, fault=None, nsplan='scoped', parser=parser, xml=vxml)
+                ctx.case(case, False, tag=f'valid document, scoped declarations/{parser}')
+                run_case(ctx, case, vxml, form, parser, None, reqs, pend, tabs=tabs)
         for pos, _ in chosen:
             for kind, mutated, damaged, mfault in faults_at(doc, pos, rng, layout):
-                xml = to_xml(mutated, layout, form, comments)
+                # where the namespaces are declared: on the root only (the layout of the document) for one case in
+                # four, otherwise on non-root elements: an action of kind NS_ACTIONS[..] on the node that is the damaged
+                # node itself / its parent / a sibling / a descendant / a non-root ancestor (rotating, so that every
+                # fault class meets every combination), plus a few random actions elsewhere
+                nsk = ctx.extra['ns rotation'] = ctx.extra.get('ns rotation', rng.randrange(1000)) + 1
+                if nsk % 4 == 0:
+                    xml = to_xml(mutated, layout, form, comments)
+                    nsplan = 'root-only'
+                else:
+                    k = nsk - nsk // 4
+                    rel, act = NS_RELS[k % len(NS_RELS)], NS_ACTIONS[(k // len(NS_RELS)) % len(NS_ACTIONS)]
+                    ref = tuple(damaged) if kind != 'admitted attribute' else tuple(pos)
+                    xml = to_xml_scoped(mutated, form, make_plan(mutated, ref, rel, act, rng), rng, comments,
+                                        ROOT_STYLES[(k // 35) % len(ROOT_STYLES)])
+                    nsplan = f'{rel}/{act}'
+                ctx.count('namespace declarations:' + nsplan)
+                ctx.count(f'namespace declarations x fault:{kind}:' + nsplan.split('/')[0])
                 if kind == 'admitted attribute':
                     # the extra attribute is admitted by the element's skip/lax attribute wildcard (oracle
                     # `wildcard_admits`, read from the specification): not a fault, the document must stay valid
                     for parser in ('etree', 'lxml'):
-                        case = dict(base, fault=None, admitted=True, node=list(pos), parser=parser, xml=xml)
+                        case = dict(base, fault=None, admitted=True, node=list(pos), nsplan=nsplan, parser=parser, xml=xml)
                         ctx.case(case, False, tag=f'admitted attribute (still valid)/{parser}')
                         run_case(ctx, case, xml, form, parser, None, reqs, pend, tabs=tabs)
                     continue
                 for parser in ('etree', 'lxml'):
-                    case = dict(base, fault=kind, node=list(pos), damaged=list(damaged), parser=parser, xml=xml)
+                    case = dict(base, fault=kind, node=list(pos), damaged=list(damaged), nsplan=nsplan, parser=parser,
+                                xml=xml)
                     locs[parser]['fault'] = json.loads(json.dumps(mfault).replace('BOGUS', bogus_tag))
                     try:
                         run_case(ctx, case, xml, form, parser, tuple(damaged), reqs, pend, tabs=tabs,
                                  loc=locs[parser])
                     except Exception as e:  # noqa
                         ctx.failure('validation raised', case, {'exception': repr(e)[:300]})
+            if len(ctx.failures) >= 40:
+                break
         if drv is not None and tabs is not None:
             compare_localise(ctx, drv, list(locs.values()))
         if ctx.time_left() < 120:
